@@ -99,13 +99,33 @@ def run(ctx, col: Collector):
                   f'DEFAULT is emitted under {sorted(map(str, d)) if d else "no recognised test"}; a truthiness test drops the defaults 0, False and \'\'',
                   node=fi.node, file=fi.file)
         # expression defaults are rendered by the expression renderer
-        expr_branch = [n for n in ast.walk(fi.node) if isinstance(n, ast.If) and 'isinstance' in norm(n.test) and 'Expression' in norm(n.test)
-                       and f'{m}.default' in norm(n.test)]
-        okb = bool(expr_branch) and any(isinstance(c, ast.Call) and isinstance(c.func, ast.Attribute) and c.func.attr in ('render',) and norm(c.args[0]) == f'{m}.default'
-                                        for s in expr_branch[0].body for c in ast.walk(s)) or \
-            any(isinstance(c, ast.Attribute) and c.attr == 'sql' and norm(c.value) == f'{m}.default' for n in expr_branch for s in n.body for c in ast.walk(s))
-        col.check(okb, 'C03-column', 'render_column:expression-default', 'an Expression default is rendered by the expression renderer',
-                  'an Expression default is not passed to the renderer (its text would be emitted without parentheses)', node=fi.node, file=fi.file)
+        dflt = {f'{m}.default'} | {norm(a.targets[0]) for a in ast.walk(fi.node) if isinstance(a, ast.Assign) and len(a.targets) == 1
+                                   and isinstance(a.targets[0], ast.Name) and norm(a.value) == f'{m}.default'}
+
+        def is_expr_test(t):
+            return isinstance(t, ast.Call) and isinstance(t.func, ast.Name) and t.func.id == 'isinstance' and len(t.args) == 2 and norm(t.args[0]) in dflt \
+                and 'Expression' in norm(t.args[1])
+
+        def renders(nodes):
+            for s_ in nodes:
+                for c in ast.walk(s_):
+                    if isinstance(c, ast.Call) and isinstance(c.func, ast.Attribute) and c.func.attr == 'render' and c.args and norm(c.args[0]) in dflt:
+                        return True
+                    if isinstance(c, ast.Attribute) and c.attr == 'sql' and norm(c.value) in dflt:
+                        return True
+            return False
+        branches = [(n.body, n.orelse) for n in ast.walk(fi.node) if isinstance(n, ast.If) and is_expr_test(n.test)] + \
+                   [([ast.Expr(value=n.body)], [ast.Expr(value=n.orelse)]) for n in ast.walk(fi.node) if isinstance(n, ast.IfExp) and is_expr_test(n.test)]
+        cons_e = 'render_column:expression-default'
+        if any(renders(b) for b, _ in branches):
+            col.ok('C03-column', cons_e, 'an Expression default is rendered by the expression renderer', node=fi.node, file=fi.file)
+        elif any(renders(o) for _, o in branches):
+            col.bad('C03-column', cons_e, 'the expression renderer is applied on the branch where the default is NOT an Expression', node=fi.node, file=fi.file)
+        elif not any(is_expr_test(t) for t in ast.walk(fi.node)) and not renders(fi.node.body):
+            col.bad('C03-column', cons_e, 'render_column never distinguishes an Expression default and never passes it to the renderer: its text is emitted without parentheses',
+                    node=fi.node, file=fi.file)
+        else:
+            col.unk('C03-column', cons_e, 'how render_column writes an Expression default is not recognised', node=fi.node, file=fi.file)
         # type: enum by qualified name
         def is_enum_test(t):
             return isinstance(t, ast.Call) and isinstance(t.func, ast.Name) and t.func.id == 'isinstance' and len(t.args) == 2 and norm(t.args[0]) == f'{m}.type' \
@@ -375,6 +395,9 @@ def run(ctx, col: Collector):
                 is_table = (obj == root and 'Table' in ann.get(root, '') and 'Column' not in ann.get(root, '')) or obj.endswith(('.table', '.table1', '.table2'))
                 is_enum = obj == root and ann.get(root, '') in ('Enum', "'Enum'")
                 if not (is_table or is_enum):
+                    continue
+                # a name used as a lookup key / counted / compared is not text in the script
+                if any(w in ('get', 'setdefault', 'pop', 'index', 'count', 'len', 'hash', 'sorted') for w in s.wrappers) and not (s.left or s.right or s.quote):
                     continue
                 n += 1
                 bad += 1
